@@ -91,6 +91,11 @@ def rng(ctx, mir, o, depth=0):
             if len(ds) == 1 and "r" in ds[0][1] and ds[0][1]["r"].get("rv") == "bin":
                 return rng_bin(ctx, mir, ds[0][1]["r"], depth)
         pty = o.get("ty")
+        if pr == ["as Continue#0", ".0"]:
+            # the payload of `x?`: follow x back to the Ok(..) values it can hold
+            r = try_payload_range(ctx, mir, l, depth)
+            if r is not None:
+                return r
         if pty in ctx.enum_max:
             return ctx.enum_max[pty]
         return INT_RANGE.get(pty)
@@ -140,6 +145,44 @@ def rng(ctx, mir, o, depth=0):
     return tr
 
 
+def try_payload_range(ctx, mir, cf_local, depth):
+    """range of v in `let v = x?` where cf_local holds Try::branch(x): union over the Ok(..) aggregates x can be built from"""
+    ds = defs_of(mir, cf_local)
+    if len(ds) != 1 or ds[0][1].get("t") != "call" or not (ds[0][1].get("fn") or "").endswith("Try::branch"):
+        return None
+    src = ds[0][1]["args"][0]
+    seen = set()
+    work = [src]
+    out = None
+    while work:
+        o = work.pop()
+        l = operand_local(o)
+        if l is None or l in seen or len(seen) > 12:
+            return None
+        seen.add(l)
+        dd = defs_of(mir, l)
+        if not dd:
+            return None
+        for _, d in dd:
+            if "r" not in d:
+                return None          # a call result: nothing known beyond its type
+            r = d["r"]
+            if r.get("rv") == "use":
+                work.append(r["a"])
+            elif r.get("rv") == "agg" and re.search(r"Result#0$", r.get("kind") or ""):
+                if len(r["ops"]) != 1:
+                    return None
+                x = rng(ctx, mir, r["ops"][0], depth + 1)
+                if x is None:
+                    return None
+                out = x if out is None else (min(out[0], x[0]), max(out[1], x[1]))
+            elif r.get("rv") == "agg" and re.search(r"Result#1$", r.get("kind") or ""):
+                continue             # the Err value never reaches the Continue payload
+            else:
+                return None
+    return out
+
+
 def rng_bin(ctx, mir, r, depth):
     a = rng(ctx, mir, r["a"], depth + 1)
     b = rng(ctx, mir, r["b"], depth + 1)
@@ -182,10 +225,68 @@ GE_TRUE = {("Lt", 1, 0), ("Le", 1, 0), ("Gt", 0, 1), ("Ge", 0, 1)}    # (op, pos
 GE_FALSE = {("Lt", 0, 1), ("Le", 0, 1), ("Gt", 1, 0), ("Ge", 1, 0)}   # op false => A >= B
 
 
+def ref_target(mir, o, depth=0):
+    """place string a reference operand points to (`&x`, `&*&x`), following single definitions"""
+    l = operand_local(o) if isinstance(o, dict) and "o" in o else None
+    if l is None or depth > 6:
+        return None
+    ds = defs_of(mir, l)
+    if len(ds) != 1 or "r" not in ds[0][1]:
+        return None
+    r = ds[0][1]["r"]
+    if r.get("rv") == "use":
+        return ref_target(mir, r["a"], depth + 1)
+    if r.get("rv") == "ref":
+        pl = r["p"]
+        pr = pl.get("pr") or []
+        if pr and pr[0] == "*" and len(pr) == 1:
+            return ref_target(mir, {"o": "copy", "p": {"l": pl["l"]}}, depth + 1)
+        if "*" in pr:
+            return None
+        return "_%d%s" % (pl["l"], "".join(pr))
+    return None
+
+
+def ordering_edge(mir, p, cur):
+    """when block p switches on the discriminant of `Ord::cmp(&X, &Y)` for integers: (X, Y, relation taken on the edge to cur)"""
+    pb = mir["blocks"][p]
+    t = pb["term"]
+    dl = operand_local(t["discr"])
+    src = None
+    for s in pb["stmts"]:
+        if s["lhs"]["l"] == dl and s["r"].get("rv") == "discr" and "cmp::Ordering" in (s["r"].get("ty") or ""):
+            src = s["r"]["p"]["l"]
+    if src is None:
+        return None
+    call = None
+    for blk in mir["blocks"]:
+        tt = blk["term"]
+        if tt.get("t") == "call" and tt["dest"]["l"] == src and not tt["dest"].get("pr"):
+            call = tt if call is None else False
+    if not call:
+        return None
+    fn = call.get("resolved") or call.get("fn") or ""
+    if not re.search(r"impl std::cmp::Ord for (u8|u16|u32|u64|usize|i8|i16|i32|i64|isize)>::cmp$", fn) or len(call["args"]) != 2:
+        return None
+    X, Y = ref_target(mir, call["args"][0]), ref_target(mir, call["args"][1])
+    if not X or not Y:
+        return None
+    tg = [v for v, b in t["targets"] if b == cur]
+    if len(tg) == 1 and t["otherwise"] != cur:
+        rel = {255: "lt", 0: "eq", 1: "gt", -1: "lt"}.get(tg[0])
+    elif not tg and t["otherwise"] == cur:
+        named = set(v for v, b in t["targets"])
+        rest = {255, 0, 1} - set(255 if v == -1 else v for v in named)
+        rel = {frozenset([255]): "lt", frozenset([0]): "eq", frozenset([1]): "gt", frozenset([0, 1]): "ge", frozenset([255, 0]): "le"}.get(frozenset(rest))
+    else:
+        rel = None
+    return (X, Y, rel) if rel else None
+
+
 def dominated_ge(mir, block, A, B, preds):
     """walk back through unique predecessors looking for a branch whose taken edge implies A >= B"""
     cur = block
-    for _ in range(8):
+    for _ in range(16):
         ps = [p for p in preds[cur] if not mir["blocks"][p].get("cleanup")]
         if len(ps) != 1:
             return False
@@ -193,6 +294,13 @@ def dominated_ge(mir, block, A, B, preds):
         pb = mir["blocks"][p]
         t = pb["term"]
         if t.get("t") == "switch":
+            oe = ordering_edge(mir, p, cur)
+            if oe is not None:
+                X, Y, rel = oe
+                if (X, Y) == (A, B) and rel in ("gt", "ge", "eq"):
+                    return True
+                if (X, Y) == (B, A) and rel in ("lt", "le", "eq"):
+                    return True
             dl = operand_local(t["discr"])
             cmp_ = None
             for s in pb["stmts"]:
